@@ -173,6 +173,8 @@ PROPS = {
                 claim="Verus proves the on-busy block sends exactly the documented controls per (running, mode): idle -> Start; do-nothing -> nothing; signal -> the configured signal only; restart -> graceful restart with the stop signal/timeout; queue -> at most one follow-up task, which waits for the current run to end and then starts one run; --signal/-r select the mode; start-up event sent iff not --postpone (structural); non-overlap is C04's invariant (same obligations)",
                 trusted="stand-ins in prelude/cliaction_env.rs (Job handle as a control log, atomics), prelude/task_env.rs"),
     "C08": dict(units=["actionloop", "cliaction", "task", "flag"], level="proof",
+                fallback=[replay_engine("lib", "graceful_quit_three_stubborn_jobs_within_grace", "C08.bounded.graceful_quit_three_stubborn_jobs_within_grace",
+                                        "3 jobs that ignore SIGTERM, quit_gracefully(Terminate, 1.5 s) on the real library: the main task ends within grace + 1.2 s, not before the grace, and no process survives")],
                 engines=[replay_engine("supervisor", "grouped_graceful_stop_leaves_no_member", "C08.assumption.no_group_member_outlives_a_graceful_stop",
                                        "after stop_with_signal + delete of a grouped command no member of its process group is left (one history, executed on the real supervisor with real processes)",
                                        label="ASSUMPTION VALIDATED BY EXECUTION (OS / process-wrap behaviour no contract here can express; one history): ")],
@@ -217,3 +219,4 @@ PROPS["C13"]["thorough_engines"] = [_hist("lib", sc, "C13", w) for sc, w in [
     ("mode_change_after_failed_unwatch", "a path whose mode changed while its unwatch failed stays registered after a later change"),
     ("change_during_apply_is_not_lost", "a configuration change made while the previous one is being applied is applied")]]
 PROPS["C18"]["thorough_engines"] = PROPS["C18"]["fallback"]
+PROPS["C08"]["thorough_engines"] = PROPS["C08"]["fallback"]
